@@ -17,11 +17,12 @@ RULE = ("Two sources: (1) Hypothesis-generated strongly consistent bases as C01;
         "count vector (highest layer first) over A&B worlds < least over A&notB worlds. "
         "evaluations = answers compared; non-trivial = A, A&B, A&notB satisfiable; distinct by "
         "(atom count, base masks, query masks).")
-ASSUMPTIONS = ["CPython, Hypothesis, harness reference semantics (self-checked p<=Z<=W<=lex)",
+ASSUMPTIONS = ["the stratum 'min-card-set-after-larger' uses a modelled clause cost (false conjuncts of a conjunctive consequent) only to choose inputs; the oracle stays the definition",
+               "CPython, Hypothesis, harness reference semantics (self-checked p<=Z<=W<=lex)",
                "programmatic construction with parser conventions"]
 CFGS = ["lex-rc2", "lex-z3"]
 STRATA = ["lex!=W", "card-tie", "multi-v-diff-cont", "multi-f-diff-cont", "allpairs!=def",
-          "tie-to-layer-0"]
+          "tie-to-layer-0", "min-card-set-after-larger"]
 
 
 def budget(tier):
@@ -53,6 +54,9 @@ def features(M, a, v, f):
 def search(seed):
     """reference-only search for a case in stratum STRATA[seed % len]"""
     want = STRATA[seed % len(STRATA)]
+    if want == "min-card-set-after-larger":
+        from .. import search as S
+        return S.worldset_search(seed, want, max_candidates=12000, need_lex_tie=True)
     rnd = gen.rng(seed)
     tried = 0
     best = None
@@ -82,6 +86,7 @@ def search(seed):
 
 def strategy(tier):
     return st.one_of(gen.strong_case(1, 4 if tier == "quick" else 5, 6),
+                     gen.multiclause_case(5),
                      st.integers(0, 2**40).map(search),
                      st.integers(0, 2**40).map(search))
 
@@ -93,12 +98,21 @@ def _strata(ctx, M, q, BA, e):
 
 
 def run_case(case, ctx):
+    if case.get("searched") == "min-card-set-after-larger":
+        ctx.stratum("min-card-set-after-larger")
     if case.get("searched"):
         ctx.stratum("source:search")
         ctx.extra["reference_only_candidates"] = ctx.extra.get("reference_only_candidates", 0) + case.get("tried", 0)
     else:
         ctx.stratum("source:direct")
     return opsem.compare(ID, case, ctx, CFGS, strata_fn=_strata)
+
+
+
+def extra_cases(tier, shard, nshards, ctx):
+    if tier != "thorough":
+        return
+    yield from opsem.corpus484(shard, nshards, ctx)
 
 
 def shrink(case):
